@@ -66,6 +66,14 @@ check("C08", "model_checking",
       "Trusted: the statement/expression tables in checks/c08.py and their declared call sets. Names equal to intrinsics/keywords are not generated. One genuine defect (computed GOTO inside IF) is a listed known finding.",
       "bounded-exhaustive enumeration of statement sequences against call sets from the abstract model", "DESIGN.md 5/C08")
 
+check("C14", "model_checking",
+      "(a) every sequence of <= L fixed-form physical lines over 27 line classes (continuation marks, comment styles, labels, short/blank lines, text beyond column 72 with the "
+      "length limit on and off, inline comments/docs, cpp lines) run through the real convertToFree + FortranReader and compared with a reference fixed-form lexer; "
+      "(b) model programs rendered in free and in fixed form with every single continuation break position between tokens (thorough: pairs), comment styles, labels, "
+      "sequence fields and inline docs: the canonical entity trees incl. doc words and calls must be equal.",
+      "Trusted: the column rules in checks/c14.py (fixed_to_ref_free) feeding the reference free-form lexer of C02; the token splitter that chooses break positions. Breaks inside tokens/literals are not generated.",
+      "bounded-exhaustive line-sequence product against a reference lexer + free/fixed differential over all break positions", "DESIGN.md 5/C14")
+
 ALL = [f"C{i:02d}" for i in range(1, 21)]
 PENDING_REASON = "check not built yet in this round (planned: see DESIGN.md section 5); will be claimed once its exhaustive check exists"
 
